@@ -106,6 +106,12 @@ Definition orbit_from_particle_err (tiny G t0 : T) (p prim : part T) : Z + orbit
          (h / mu * (dvy - dvz / (h + hz) * hy) - one / d * (dx - dz / (h + hz) * hx))
          ((- fac) * hy) (fac * hx) hx hy hz ex ey ez).
 
+(* the clock: `double t0 = 0.0; if (p.sim != NULL){ t0 = p.sim->t; }` -- the PARTICLE's simulation pointer decides;
+   the primary's pointer (NULL for the centre-of-mass primaries built by reb_simulation_com / _jacobi_com) is not read.
+   psim / primsim: Some t = member of a simulation whose time is t, None = sim pointer NULL. *)
+Definition orbit_from_particle_sim (tiny G : T) (psim primsim : option T) (p prim : part T) : Z + orbit :=
+  orbit_from_particle_err tiny G (match psim with Some t => t | None => zero end) p prim.
+
 (* ------------------------------------------------------------------ Pal (2009) coordinates *)
 (* one pass of the do{...}while body: returns (pn', qn', f) *)
 Definition pal_step (h k lambda pn qn : T) : T * T * T :=
